@@ -197,3 +197,13 @@ func (l *Loop) Explain(ctx sdk.Context, p channeltypes.Packet) (out string) {
 	}
 	return "no error"
 }
+
+// RecvForeign plays a remote chain that is not this application: the packet is marked received on
+// the destination end and `ack` is what that chain wrote as its acknowledgement (any bytes the
+// ICS-04 rules admit, e.g. an error acknowledgement with an empty text). Nothing of this
+// application's receive logic runs.
+func (l *Loop) RecvForeign(ctx sdk.Context, p channeltypes.Packet, ack []byte) {
+	ck := l.C.App.IBCKeeper.ChannelKeeper
+	ck.SetPacketReceipt(ctx, p.DestinationPort, p.DestinationChannel, p.Sequence)
+	ck.SetPacketAcknowledgement(ctx, p.DestinationPort, p.DestinationChannel, p.Sequence, channeltypes.CommitAcknowledgement(ack))
+}
